@@ -67,12 +67,14 @@ fn fin_scenario(n: usize, slots: usize, nb_nodes: usize, nbehav: u8, pre_stash: 
             drop_h(i); // reference-count path: may finalize, resurrect, drop
             oracle_safety(200);
             oracle_rc(200);
+            crate::h_api::oracle_buffer(200);
         }
     }
     collect_quiescent(4, 300);
     oracle_safety(300);
     oracle_rc(300);
     oracle_complete(300);
+    crate::h_api::oracle_buffer(300);
     cover(1);
     // ---- later history of whatever was resurrected / created / still held
     let mut any = false;
@@ -104,6 +106,7 @@ fn fin_scenario(n: usize, slots: usize, nb_nodes: usize, nbehav: u8, pre_stash: 
     oracle_safety(500);
     oracle_rc(500);
     oracle_complete(500);
+    crate::h_api::oracle_buffer(500);
 }
 
 #[no_mangle]
